@@ -14,7 +14,8 @@ def run(rep, kf, tier, seed):
                        "C16", tier, seed)
     import contracts.project as cproj
     import contracts.process_config as cpc
-    engine_b.discharge(rep, kf, [cproj.init_contract(), cpc.process_config_contract()], "C16", tier, seed)
+    import contracts.pipeline as cpl
+    engine_b.discharge(rep, kf, [cproj.init_contract(), cpc.process_config_contract()] + cpl.all_contracts(), "C16", tier, seed)
     rep.obligations = [o for o in rep.obligations if "C16" in o.props or o.id.endswith("no-exception-escapes")]
     cd.discharge(rep, kf, "C16", tier, seed)
     import contracts.closure as cl
